@@ -69,7 +69,7 @@ pub const PUNCTS: [&str; 16] = [", ", ",", "; ", " ; ", ": ", "! ", "? ", ". ", 
 pub fn run(ctx: &Ctx) -> Outcome {
     let n_split = ctx.n(600_000, 12_000_000);
     let n_punct = ctx.n(400_000, 8_000_000);
-    let rep = run_sharded(ctx, |w, nw, rep| {
+    let mut rep = run_sharded(ctx, |w, nw, rep| {
         let ls = LangSet::new();
         let mut rng = Rng::derive(ctx.seed, "C10", w as u64);
         for i in 0..(n_split / nw as u64) {
@@ -130,6 +130,9 @@ pub fn run(ctx: &Ctx) -> Outcome {
             }
         }
     });
+    if !ctx.quick() {
+        super::legs::fuzz_leg(ctx, &mut rep, 45);
+    }
     let rule = "clause 1: texts A, B from hostile text, linking sentences and the annotator-state templates (fr: determiner x number|filler x neuf x number|filler|virgule, several per text; en: o between number words / fillers / punctuation), S = 3..5 self-checked filler words ending a sentence, thresholds 0,5,10: rewrite(A S B) == rewrite(A) S rewrite(B); clause 2: spelled a, punctuation p (16 kinds, each containing a non-space character other than - and '), spelled b -> 'a p b'; non-trivial = both parts contain something that is rewritten / every punctuated pair";
     finish(ctx, rep, rule, &["separator words are fillers self-checked against the running library (never number words, linking words or annotator triggers)", "clause 2 is conditioned on both numbers passing their own C01 round-trip"], vec![])
 }
